@@ -23,7 +23,7 @@ PROP = dict(
         "data files .json/.yaml/.yml/.txt/.b with implicit decoders, explicit //encoding.json and //encoding.bytes decoders",
         "the working directory is process-wide: the harness runs these cases with one worker",
     ],
-    level_text="Proof: 15 Lean theorems about the transliterated bundling code (SetupBundle, bundleLocalFile, addModuleSentinel as "
+    level_text="Proof: 17 Lean theorems (15 about the model, 2 regenerated-fact obligations: the only direct I/O on the import/bundle path, http.Get and `go mod download`, sits behind isRunningBundle) about the transliterated bundling code (SetupBundle, bundleLocalFile, addModuleSentinel as "
                "repaired, createConfig, ZipCreate, BundledScripts) and the run side (WithBundleRun, withBundledConfig, "
                "GetMainBundleSource, import resolution inside the archive): mapPath commutes with joining a relative import "
                "(map_join), the runtime finds the module root of every imported script at the image of its source root (root_found), "
